@@ -2,10 +2,32 @@
    "Compiles" is rustc's judgment and is decided by compiling every sampled parser. *)
 From Coq Require Import List Bool Arith.
 From LV Require Import Cli CliProofs.
+From LV Require Exec Scoped.
 
 Theorem C11_no_parser_file_for_rejected : forall f w v es ex,
   run f w v = (es, ex) -> has_error v = true ->
   writes PGenerated es = false /\ writes PLexer es = false /\ writes PParser es = false /\ writes PGraph es = false.
 Proof. exact no_output_for_rejected. Qed.
 
+(* The name-binding and control-flow part of "the emitted parser compiles": the interpreter's
+   [XStuck] results are exactly the statements rustc would reject for an unbound variable, a call of
+   a rule function that does not exist, a `rec` call with the wrong arity or a break / continue /
+   plain return that leaves the closure of an ordered-choice alternative.  [prog_scoped] is a boolean
+   check of a program (evaluated on the translation of every emitted parser of a run and on
+   [Compile.compile] of its grammar); a program that passes it never reaches such a statement, on any
+   input, with any oracle, for any fuel.  Types, lifetimes and the preamble of the emitted file are
+   rustc's business and stay decided by compiling every sampled parser. *)
+Theorem C11_scoped_program_never_stuck :
+  forall prog cx orc, Scoped.prog_scoped prog = true ->
+  forall fuel r root msg w,
+    Exec.find_rule prog r <> None -> Exec.parse_entry cx prog orc fuel r root msg <> Exec.XStuck w.
+Proof. exact Scoped.parse_entry_not_stuck. Qed.
+
+Theorem C11_scoped_rule_functions_never_stuck :
+  forall prog cx orc, Scoped.prog_scoped prog = true ->
+  forall fuel f st, Scoped.fn_scoped prog f = true -> Scoped.okfn (Exec.call_fn cx prog orc fuel f st).
+Proof. intros prog cx orc H fuel. exact (proj2 (proj2 (proj2 (proj2 (Scoped.exec_scoped prog cx orc H fuel))))). Qed.
+
 Print Assumptions C11_no_parser_file_for_rejected.
+Print Assumptions C11_scoped_program_never_stuck.
+Print Assumptions C11_scoped_rule_functions_never_stuck.
